@@ -32,8 +32,17 @@ bool cellBoundaryInsidePolygon(const GeoPolygon *p, const BBox *b, const CellBou
 bool cellBoundaryCrossesPolygon(const GeoPolygon *p, const BBox *b, const CellBoundary *cb, const BBox *bb) { return vp_next_bool(); }
 #endif
 #if defined(POLYLEGACY)
-H3Error bboxHexEstimate(const BBox *bbox, int res, int64_t *out) { if (vp_next_bool()) return E_FAILED; int64_t n = (int64_t)vp_next(); __CPROVER_assume(n >= 0 && n <= 2); *out = n; return E_SUCCESS; }
-H3Error lineHexEstimate(const LatLng *a, const LatLng *b, int res, int64_t *out) { if (vp_next_bool()) return E_FAILED; int64_t n = (int64_t)vp_next(); __CPROVER_assume(n >= 1 && n <= 2); *out = n; return E_SUCCESS; }
+// legacy flood fill: the size estimate is the constant NHEX (a symbolic allocation size forces CBMC into its
+// unbounded-array encoding), the edge tracer seeds at most one cell, rings are arbitrary
+H3Error H3_EXPORT(maxPolygonToCellsSize)(const GeoPolygon *p, int res, uint32_t flags, int64_t *out) { if (vp_next_bool()) return (H3Error)(1 + (vp_next_int() & 7)); *out = NHEX; return E_SUCCESS; }
+H3Error _getEdgeHexagons(const GeoLoop *geoloop, int64_t numHexagons, int res, int64_t *numSearchHexes, H3Index *search, H3Index *found) {
+    __CPROVER_assert(numHexagons == NHEX, "tracer gets the estimated size");
+    if (vp_next_bool()) return E_FAILED;
+#ifdef SEED
+    if (*numSearchHexes == 0 && vp_next_bool()) { H3Index c = vp_next(); __CPROVER_assume(c != 0); search[0] = c; *numSearchHexes = 1; }
+#endif
+    return E_SUCCESS;
+}
 H3Error H3_EXPORT(gridDisk)(H3Index origin, int k, H3Index *out) { if (vp_next_bool()) return E_MEMORY_ALLOC; for (int i = 0; i < 7; i++) out[i] = vp_next(); return E_SUCCESS; }
 #endif
 void harness(void) {
@@ -88,8 +97,11 @@ void harness(void) {
     int64_t sz = 0;
     H3Error e = H3_EXPORT(maxPolygonToCellsSizeExperimental)(&poly, res, flags, &sz);
 #else
-    H3Index out[16] = {0};
+    H3Index out[NHEX + 1];
+    for (int i = 0; i < NHEX; i++) out[i] = 0;
+    out[NHEX] = UINT64_C(0x5a5a5a5a5a5a5a5a);
     H3Error e = H3_EXPORT(polygonToCells)(&poly, res, flags, out);
+    __CPROVER_assert(out[NHEX] == UINT64_C(0x5a5a5a5a5a5a5a5a), "no write beyond the estimated size");
 #endif
     if (vp_failed > 0) VP_WITNESS("failure path");
     __CPROVER_assert(vp_live == 0, "every block allocated has been freed on return (success and every error path)");
